@@ -570,3 +570,29 @@ Proof.
   induction fl as [|[g l'] fl IH]; cbn [fl_find fl_append]; intros l H; [discriminate|].
   destruct (f =? g) eqn:E; cbn [fl_find]; rewrite E; [inversion H; subst; reflexivity|eauto].
 Qed.
+
+(* ------------------------------------------------------------------ *)
+(** * The hypotheses of the conditional theorems are satisfiable *)
+
+Definition ex_item (i p d f : Z) : item := MkItem i p d f 1.
+
+Example priority_order_hyps :
+  let ops := [OPush false (ex_item 0 2 0 0); OPush false (ex_item 1 1 0 0); OPush false (ex_item 2 1 0 0)] in
+  exists ctr h obs s2, pol_run (PPrio None 0 []) ops = (PPrio None ctr h, obs) /\
+    pol_pop 0 (PPrio None ctr h) = (s2, Some (ex_item 1 1 0 0), []).
+Proof. cbv zeta. do 4 eexists. split; vm_compute; reflexivity. Qed.
+
+Example deadline_order_hyps :
+  let ops := [OPush false (ex_item 0 0 5 0); OPush false (ex_item 1 0 20 0); OPush false (ex_item 2 0 9 0)] in
+  exists ctr h st obs s2, pol_run (PDead None 0 [] ds0) ops = (PDead None ctr h st, obs) /\
+    pol_pop 7 (PDead None ctr h st) = (s2, Some (ex_item 2 0 9 0), [ex_item 0 0 5 0]).
+Proof. cbv zeta. do 5 eexists. split; vm_compute; reflexivity. Qed.
+
+Example capacity_hyps : within_cap (PFair (Some 2) (Some 1) [] 0 fs0) /\ within_cap (PWfq (Some 3) None [] 0 ws0)
+  /\ within_cap (PBalk 1 0 (PFifo (Some 2) [])) /\ stats_ok (PDead None 0 [] ds0) /\ stats_ok (PCodel None [] [1; 0] cs0).
+Proof. cbn. repeat split; try constructor; try (unfold zlen; cbn; lia). Qed.
+
+Example fair_round_robin_hyps :
+  fair_pop [(0, []); (1, [ex_item 5 0 0 1; ex_item 6 0 0 1]); (2, [ex_item 7 0 0 2])] 0
+  = ([(2, [ex_item 7 0 0 2]); (1, [ex_item 6 0 0 1])], Some (ex_item 5 0 0 1), 1).
+Proof. reflexivity. Qed.
